@@ -402,6 +402,8 @@ def run(repo, rep):
     rep.clause("C03-i", "after a Reshape has been bypassed no later rewrite re-derives an operator's OFM shape from the re-shaped tensor (the operator would read IFM positions that its producer never wrote) [rule shared with C02-m]")
     c02.rule_shape_view(repo, rep, "C03-i")
     rule_copy_elision(repo, rep)
+    rep.clause("C03-p", "equivalence id keys determine the bytes of the tensor: values together with the element type")
+    rule_equivalence_keys(repo, rep)
     rep.clause("C03-m", "LUT residency extents are byte extents (address + storage_size())")
     rep.clause("C03-n", "the LUT is (re)loaded for every stripe of an operator: the DMA flag is reset inside the stripe loops")
     rep.clause("C03-o", "constant feature-map operands are copied into the flash image irrespective of their element count")
@@ -622,3 +624,30 @@ def rule_round7(repo, rep):
                       f"conjunct {extra}: a one-element constant of rank >= 1 is still emitted as a broadcast IFM2 in region 0 but its value is never written there: the NPU reads the zero fill")
     if k < 2:
         raise AnalysisError(f"serialise_npu_subgraph_into_tensors: {k} guarded copies of constant operands")
+
+
+def rule_equivalence_keys(repo, rep):
+    """(p) tensors with equal equivalence ids share one live range and one address (the range keeps the size of the tensor that created
+    it). The id is memoised per key (tensor.create_equivalence_id), so the key has to determine the tensor's *bytes*: equal values of another
+    element type are another byte string (256 int8 zeros are 256 bytes, 256 int16 zeros 512). Every key is a tuple that contains the
+    element type next to the values."""
+    n = 0
+    for m in repo.core_modules():
+        for q, fn in m.functions.items():
+            for c in ast.walk(fn):
+                if isinstance(c, ast.Call) and call_name(c) in ("create_equivalence_id", "tensor.create_equivalence_id") and len(c.args) == 1:
+                    # weights and biases reach memory only through the encoder (their sharing is the compression cache's matter, C08-g):
+                    # the rule concerns constants that are placed as they are (feature-map constants, lookup tables)
+                    par = m.parents.get(c)
+                    tgt = str(norm(par.targets[0].value)) if isinstance(par, ast.Assign) and isinstance(par.targets[0], ast.Attribute) else None
+                    made = [a for a in ast.walk(fn) if isinstance(a, ast.Assign) and len(a.targets) == 1 and str(norm(a.targets[0])) == tgt and isinstance(a.value, ast.Call) and call_name(a.value) == "create_const_tensor"]
+                    if tgt is None or (tgt in ("bias", "weight_tensor", "weights") or any("TensorPurpose.Weights" in str(norm(a.value)) for a in made)):
+                        continue
+                    n += 1
+                    k = c.args[0]
+                    has_type = isinstance(k, ast.Tuple) and any("dtype" in str(norm(e)) or "data_type" in str(norm(e)) for e in k.elts)
+                    rep.check(has_type, "C03-p", f"ethosu/vela/{m.name}.py:{q}", f"`{str(norm(c))[:80]}`: the key contains the element type",
+                              "the key is the value tuple alone: np.int8(0) and np.int16(0) hash and compare equal, so the border zeros of an int8 PAD and of an int16 PAD with the same count share one live range "
+                              "of the smaller size; the 512-byte int16 zeros are written over a convolution's encoded weights (87 of 1344 weight bytes differ)")
+    if n < 5:
+        raise AnalysisError(f"create_equivalence_id: {n} call sites for constants placed as they are")
